@@ -108,6 +108,23 @@ structure SpecOut where
   /-- does the signature explain later divergences of the case too (state damage), or this line only? -/
   sticky : Bool := true
 
+/-- Which of the recorded Merge defects can this Merge call run into? Decided on the state Merge starts
+from; `none` = none of them: the call is inside the guard of the C15/C16 theorems and must leave every
+observation unchanged, at every crash point too.
+  * D-MERGE-LIST: a list record is in some data file (pushes are re-applied, pops/LSet/LTrim/LRem dropped);
+  * D-MERGE-FID0: key-only index mode (hints created by the rewrite carry file id 0);
+  * D-MERGE-UNCOMMITTED: a record of a transaction that never committed is in some data file;
+  * D-MERGE-XSTRUCT: a set / sorted-set record whose bucket and key are also in the KV index;
+  * D-MERGE-ACTIVE: nothing is live in any file (the active file is removed while still open). -/
+def mergeSignature (s : State) (now : Nat) : Option String :=
+  let recs := allRecs s.files
+  if recs.any (fun x => x.1.ds == dsList) then some "D-MERGE-LIST"
+  else if s.opt.mode != 0 then some "D-MERGE-FID0"
+  else if recs.any (fun x => !s.committed.contains x.1.txid) then some "D-MERGE-UNCOMMITTED"
+  else if recs.any (fun x => x.1.ds != dsKV && ((aget? s.kv x.1.bucket).bind (aget? · x.1.key)).isSome) then some "D-MERGE-XSTRUCT"
+  else if (merge s now []).1.activeUnlinked then some "D-MERGE-ACTIVE"
+  else none
+
 def step (sp : SpecSt) (model : State) (cmd : String) (impl : String) : SpecOut :=
   let f := words cmd
   let op := f.headD ""
@@ -162,6 +179,7 @@ def step (sp : SpecSt) (model : State) (cmd : String) (impl : String) : SpecOut 
     if !sp.txOpen || sp.txClosed then { st := sp, expect := some (ex "err") }
     else { st := { sp with txClosed := true, writeSet := [] }, expect := some (ex "ok") }
   | "capture" => { st := sp, expect := none }
+  | "fault" => { st := sp, expect := none }
   | "concmerge" => { st := { sp with concMerge := true }, expect := none }
   | "backupobs" =>
     let want := "ok open=ok obs=" ++ obs sp.committed (N 2)
@@ -186,8 +204,10 @@ def step (sp : SpecSt) (model : State) (cmd : String) (impl : String) : SpecOut 
     { st := sp, expect := some (ex want (alts := if implNorm == want then [impl] else [])),
       taint := if field "event" == "write-torn" then some "D-TORN-CRC" else none, sticky := false }
   | "merge" =>
-    { st := { sp with prev := sp.committed, lastTx := 0 }, expect := some (ex ("ok" ++ (impl.drop cls.length).toString) (alts := ["err" ++ (impl.drop cls.length).toString])),
-      taint := some "D-MERGE" }
+    -- `Merge` may refuse (fewer than two data files): an error that changes nothing is acceptable
+    let tail := (impl.drop ((words impl).headD "").length).toString
+    { st := { sp with prev := sp.committed, lastTx := 0 }, expect := some (ex ("ok" ++ tail) (alts := ["err" ++ tail])),
+      taint := mergeSignature model (N 1) }
   | "obs" =>
     let want := "ok " ++ obs sp.committed (N 1)
     { st := sp, expect := some (ex want (alts := if dropEmpties impl == want then [impl] else [])) }
